@@ -47,6 +47,19 @@ def close(a, b, tol=TOL):
     return abs(a - b) <= tol * max(1.0, abs(a), abs(b))
 
 
+def invalid_labels(spec, row, names):
+    """Discrete variables in a frame row whose value is not a label of the grid (possible only
+    if the code under test is wrong; the oracle must not index its tables with them)."""
+    bad = []
+    for v in names:
+        g = spec.variables[v]
+        if g[0] == "disc":
+            x = float(row[v])
+            if not np.isfinite(x) or x != int(x) or not (0 <= int(x) < g[1]):
+                bad.append(f"{v}={x!r} is not a label of its grid (0..{g[1] - 1})")
+    return bad
+
+
 def choice_index(spec, ref, row):
     """Map reported choice values to grid indices. Returns (idx tuple, list of problems)."""
     idx, probs = [], []
@@ -88,6 +101,10 @@ def check_rows(spec, ref, df, vfull, n_agents, tol=TOL):
             cnt["rows"] += 1
             row = df.loc[(t, i)]
             states = {s: row[s] for s in spec.states}
+            bad = invalid_labels(spec, row, list(spec.states))
+            if bad:
+                msgs.append(f"(t={t}, agent={i}): state " + "; ".join(bad))
+                continue
             if not all(np.isfinite(float(v)) for v in states.values()):
                 cnt["rows_skipped_infeasible"] += 1
                 continue
@@ -156,6 +173,10 @@ def check_law_of_motion(spec, ref, df, init, n_agents):
     for t in range(T - 1):
         for i in range(n_agents):
             row, nxt = df.loc[(t, i)], df.loc[(t + 1, i)]
+            bad = invalid_labels(spec, row, list(allv)) + invalid_labels(spec, nxt, list(spec.states))
+            if bad:
+                msgs.append(f"(t={t}, agent={i}): " + "; ".join(bad[:3]))
+                continue
             if not all(np.isfinite(float(row[v])) for v in allv):
                 continue
             env = {
